@@ -210,7 +210,8 @@ pub fn eval(c: &ImgCase) -> CaseOut {
     };
     let mut new_truth = truth.root.clone();
     let clock_now = Ts::from_ms(800_000_000_000);
-    let kind = c.mutation % 6;
+    let kind = c.mutation % 7;
+    let filled = std::rc::Rc::new(std::cell::Cell::new(0usize));
     let mutation: Option<(Mutation, Box<dyn FnOnce(&Session) -> Result<(), String>>)> = match kind {
         0 | 1 => {
             // create a file (0) or directory (1) with a long name in an existing directory
@@ -280,6 +281,51 @@ pub fn eval(c: &ImgCase) -> CaseOut {
                     Box::new(move |s: &Session| {
                         let r = s.root();
                         r.rename(&ps, &r, &dps).map_err(|e| format!("{:?}", e))
+                    }),
+                ))
+            }
+        }
+        6 => {
+            // fill the volume: write a new file until the library reports that no space is left (only where that is
+            // cheap), so that the allocator has to walk to the very end of a table it did not create
+            if dec.free > 3000 {
+                None
+            } else {
+                let name = "filled up by the library.bin".to_string();
+                let cs = g.cluster_size() as usize;
+                new_truth.push(TNode { name: name.encode_utf16().collect(), short: Vec::new(), is_dir: false, attr: 0, size: 0, created: clock_now.floor_10ms(), modified: clock_now.floor_2s(), accessed: clock_now.date_only(), data: Some(Vec::new()), children: Vec::new(), has_long: true });
+                let filled2 = filled.clone();
+                let nm = name.clone();
+                Some((
+                    Mutation { what: "fill the volume with one new file".into(), affected_files: vec![vec![name]], affected_dirs: vec![Vec::new()] },
+                    Box::new(move |s: &Session| {
+                        let mut f = s.root().create_file(&nm).map_err(|e| format!("{:?}", e))?;
+                        let mut total = 0usize;
+                        loop {
+                            let chunk: Vec<u8> = (0..3 * cs + 17).map(|i| ((total + i) * 7 + 1) as u8).collect();
+                            let mut off = 0usize;
+                            let mut full = false;
+                            while off < chunk.len() {
+                                match f.write(&chunk[off..]) {
+                                    Ok(0) => {
+                                        full = true;
+                                        break;
+                                    }
+                                    Ok(n) => off += n,
+                                    Err(fatfs::Error::NotEnoughSpace) => {
+                                        full = true;
+                                        break;
+                                    }
+                                    Err(e) => return Err(format!("write: {:?}", e)),
+                                }
+                            }
+                            total += off;
+                            if full || total > 4000 * cs {
+                                break;
+                            }
+                        }
+                        filled2.set(total);
+                        Ok(())
                     }),
                 ))
             }
@@ -361,6 +407,22 @@ pub fn eval(c: &ImgCase) -> CaseOut {
         Caught::Ok(Ok(())) => {}
     }
     out.classes.insert(format!("mutation_kind_{}", kind), 1);
+    if kind == 6 {
+        let total = filled.get();
+        if let Some(n) = new_truth.iter_mut().find(|n| n.name_string() == "filled up by the library.bin") {
+            n.size = total as u64;
+            n.data = Some((0..total).map(|i| (i * 7 + 1) as u8).collect());
+            if total == 0 {
+                n.modified = clock_now.floor_2s();
+            }
+        }
+        // the library may only have stopped because the table really has no free entry left
+        let free_after = dev.with_store(|st| g.count_free(st));
+        if free_after != 0 {
+            out.violation = Some(format!("after filling the volume until NotEnoughSpace the table still has {} free entries", free_after));
+            return out;
+        }
+    }
     let img2 = dev.snapshot();
     // (i) still valid, no new kinds of findings
     let dec2 = match refdec::decode(&img2, refdec::DecodeOpts::default()) {
@@ -521,7 +583,11 @@ fn check_diff(a: &Store, b: &Store, pre: &Decoded, post: &Decoded, mu: &Mutation
                 if g.width == 32 && within % 4 == 3 && (old & 0xF0) != (new & 0xF0) {
                     return Err(format!("reserved high bits of FAT32 entry {} changed", cl));
                 }
-                if cands.iter().any(|c| *c >= 2 && (pre.fat.get(*c) == 0 || owned_by_affected(pre, *c) || owned_by_affected(post, *c))) {
+                let maxc = g.max_cluster();
+                if cands.iter().all(|c| *c > maxc) {
+                    return Err(format!("padding FAT entry {} (past the last cluster {}) changed", cl, maxc));
+                }
+                if cands.iter().any(|c| *c >= 2 && *c <= maxc && (pre.fat.get(*c) == 0 || owned_by_affected(pre, *c) || owned_by_affected(post, *c))) {
                     Ok(())
                 } else {
                     Err(format!("FAT entry of cluster {} changed; it was neither free nor part of an object the mutation touches", cl))
@@ -676,7 +742,7 @@ pub fn replay(v: &serde_json::Value) -> Result<Option<String>, String> {
 }
 
 pub fn run(tier: Tier, seed: u64) -> i32 {
-    let rule = "volumes built by imggen (independent of the library's writer) over 18 geometries (FAT12/16/32, sector 512..4096, 1-3 FATs, mirroring off with each active copy and garbage in inactive ones, root cluster != 2, non-zero FAT32 high nibbles, every end-of-chain value) and populated with named switches: fragmented / backwards chains, BAD clusters, deleted slots and runs, orphan long-name runs (wrong checksum, truncated, followed by a deleted entry), short-only entries with NT lowercase flags / 0x05 lead byte / OEM bytes, labels anywhere in the root, all RO/HID/SYS/ARCH combinations, arbitrary valid timestamps, multi-cluster directories, garbage after the end marker; read oracle = listings, names, short names, attributes, 3 timestamps, sizes, contents (random chunk sizes), label, id, width, free count, status flags equal the builder's ground truth (which refdec must confirm first) and no device write happens; modify oracle = one library mutation (create file/dir, remove, rename, truncate, overwrite) then no new refdec finding, expected tree read back by refdec and a fresh mount, and every changed byte of the raw diff lies in the status byte, FS-info, FAT entries (low 28 bits) of clusters that were free or belong to the touched objects, free or own directory slots of the touched directories, timestamp fields of their own entries, or clusters that were free or belong to the touched file; non-trivial = image with >= 3 freedoms and a fragmented file; distinct by hash of the case";
+    let rule = "volumes built by imggen (independent of the library's writer) over 18 geometries (FAT12/16/32, sector 512..4096, 1-3 FATs, mirroring off with each active copy and garbage in inactive ones, root cluster != 2, non-zero FAT32 high nibbles, every end-of-chain value) and populated with named switches: fragmented / backwards chains, BAD clusters, deleted slots and runs, orphan long-name runs (wrong checksum, truncated, followed by a deleted entry), short-only entries with NT lowercase flags / 0x05 lead byte / OEM bytes, labels anywhere in the root, all RO/HID/SYS/ARCH combinations, arbitrary valid timestamps, multi-cluster directories, garbage after the end marker; read oracle = listings, names, short names, attributes, 3 timestamps, sizes, contents (random chunk sizes), label, id, width, free count, status flags equal the builder's ground truth (which refdec must confirm first) and no device write happens; modify oracle = one library mutation (create file/dir, remove, rename, truncate, overwrite, or filling the volume until NotEnoughSpace) then no new refdec finding, expected tree read back by refdec and a fresh mount, and every changed byte of the raw diff lies in the status byte, FS-info, FAT entries (low 28 bits) of clusters that were free or belong to the touched objects, free or own directory slots of the touched directories, timestamp fields of their own entries, or clusters that were free or belong to the touched file; non-trivial = image with >= 3 freedoms and a fragmented file; distinct by hash of the case";
     let mut rep = Report::new("C08", tier, seed, "exploration", rule);
     rep.assume("valid volumes only: C07/C17 own the invalid ones; FS-info free count is exact");
     rep.assume("names containing OEM bytes >= 0x80 are listed (as U+FFFD) but not used for by-name lookups");
